@@ -26,6 +26,27 @@ PROPS = {
              "non-trivial = the unsimulated reference compile succeeds (so descriptor bytes are compared) and the workload has >1 file",
         assumptions=_ASSUME_B + ["oracle = unsimulated MaxParallelism=1 compile of the same inputs (run twice)"],
     ),
+    "C06": dict(
+        test="TestC06", engine="B", level="exploration", components="compile",
+        quick_checks=800, thorough_checks=40000, thorough_timeout=7200,
+        rule="a case = random import digraph on 1-6 files (self-imports, cycles of any length, diamonds, imports of missing files; "
+             "files contain only imports and one empty message) x non-empty requested subset in random order x MaxParallelism 1-4 x "
+             "default or never-aborting reporter x scheduler tape/disabled hooks/starved victim; distinct = distinct (graph, request, "
+             "reporter, trace hash); non-trivial = the requested closure contains an import cycle",
+        assumptions=_ASSUME_B + ["oracle = graph model (reachability + DFS cycle detection) computed by the harness",
+                                 "a cycle report is only demanded when cycles are the only defect in the closure (Compile may return on a missing import before any cycle member runs its check)"],
+    ),
+    "C07": dict(
+        test="TestC07", engine="B", level="fault_enumeration", components="compile",
+        quick_checks=600, thorough_checks=30000, thorough_timeout=7200,
+        rule="a case = valid generated workload (2-7 files) x request x MaxParallelism in {1,2,4} x fault plan of 0-3 faults over "
+             "(file, resolver-call ordinal): resolver error / resolver panic / read error at byte k / read panic at byte k / benign "
+             "delivery shapes (short reads, (0,nil) reads, (n,EOF), Close error) / context cancellation at decision k (incl. before "
+             "start and after return) x scheduler tape; distinct = distinct (workload, plan, trace hash); non-trivial = at least one "
+             "non-masked fault fired, or the cancellation was delivered, before Compile returned",
+        assumptions=_ASSUME_B + ["a panicking Close() is outside the property's fault model (resolver, accessor, reader failure, cancellation) and is not injected",
+                                 "resolver errors for google/protobuf/* are masked by WithStandardImports and failures inside the descriptor.proto probe are ignored by design; both count as masked"],
+    ),
 }
 
 _PURE = "pure function of its input (no schedule, clock, fault or interleaving can change the answer): not a deterministic-simulation target; see DESIGN.md section 4"
@@ -37,9 +58,26 @@ NOT_APPLICABLE = {
     "C39": _PURE, "C40": _PURE + " (histories over a single-threaded structure are just inputs; nothing to inject)", "C41": _PURE,
 }
 _P = "simulation applies (DESIGN.md section 3) but the check is still under construction in this round; not claimed until it runs"
-PENDING = {k: _P for k in ["C06", "C07", "C08", "C09", "C16", "C17", "C33", "C34", "C35", "C36", "C38"]}
+PENDING = {k: _P for k in ["C08", "C09", "C16", "C17", "C33", "C34", "C35", "C36", "C38"]}
 
 MANIFEST_TEXT = {
+    "C07": dict(
+        technique="deterministic simulation with fault injection: seeded fault plans on the Resolver/io.Reader/context seams x seeded schedules (engine B)",
+        design_ref="DESIGN.md 3.3",
+        level_text="Seeded enumeration of fault plans (which resolver call or which byte of which file fails or panics, when the "
+                   "context is cancelled) crossed with seeded interleavings; oracles: the call returns within a decision budget, the "
+                   "process survives, success implies the fault-free result, every error is attributable to an injected fault "
+                   "(errors.Is / PanicError.Value identity / context.Canceled), no goroutine is left blocked after draining.",
+        level_note="Trusted: harness scheduler, synctest quiescence and leak detection, fault stubs. Sampling of plans and schedules, not exhaustive.",
+    ),
+    "C06": dict(
+        technique="deterministic simulation: seeded schedule search (engine B) with a graph-model oracle and bounded-step liveness",
+        design_ref="DESIGN.md 3.2",
+        level_text="Seeded exploration of task interleavings around blocked-on publication, dependency creation, cycle checks and "
+                   "semaphore release/re-acquire over random import digraphs; the oracle is a reachability/SCC model plus "
+                   "deadlock, livelock (decision budget) and goroutine-leak detection by the scheduler itself.",
+        level_note="Trusted: harness scheduler and synctest quiescence; cycle-path validation parses the error text. Sampling only.",
+    ),
     "C05": dict(
         technique="deterministic simulation: seeded schedule search (engine B) against an unsimulated sequential reference compile",
         design_ref="DESIGN.md 3.1",
